@@ -388,6 +388,29 @@ pub fn run() {
                     Ok(Ok(_)) => "ok".to_string(),
                     _ => "err".to_string(),
                 },
+                // a process range under which the services of `in=` belong to this node and those of `out=` do not
+                Some("range2") => {
+                    let ins: Vec<ServiceKey> = kv(&ws, "in").split(',').filter(|x| !x.is_empty()).map(skey).collect();
+                    let outs: Vec<ServiceKey> = kv(&ws, "out").split(',').filter(|x| !x.is_empty()).map(skey).collect();
+                    let mut found = None;
+                    'search: for len in 2usize..64 {
+                        for idx in 0..len {
+                            let r = ProcessRange::new(idx, len);
+                            let h = |k: &ServiceKey| rnacos::common::hash_utils::get_hash_value(k) as usize;
+                            if ins.iter().all(|k| r.is_range(h(k))) && outs.iter().all(|k| !r.is_range(h(k))) {
+                                found = Some(r);
+                                break 'search;
+                            }
+                        }
+                    }
+                    match found {
+                        Some(r) => match a.send(NamingCmd::ClusterRefreshProcessRange(r)).await {
+                            Ok(Ok(_)) => "ok".to_string(),
+                            _ => "err".to_string(),
+                        },
+                        None => "err no-such-range".to_string(),
+                    }
+                }
                 Some("setprotect") => {
                     let k = skey(kv(&ws, "svc"));
                     let dto = ServiceDetailDto {
